@@ -53,9 +53,7 @@ pub fn scalars(quick: bool) -> Vec<[u8; 32]> {
     }
     let mut seen = std::collections::HashSet::new();
     v.retain(|x| seen.insert(*x));
-    if quick {
-        v.truncate(24);
-    }
+    let _ = quick;
     v
 }
 
@@ -102,10 +100,10 @@ pub fn us(quick: bool) -> Vec<[u8; 32]> {
         ints.push(U::from_le(&unhex(h)));
     }
     // images of Edwards pool points (incl. torsion)
-    for k in pool(if quick { 2 } else { 5 }, true) {
+    for k in pool(5, true) {
         ints.push(k.pt.to_montgomery_u().0);
     }
-    ints.extend(alpha::fe_ints().into_iter().take(if quick { 20 } else { 80 }));
+    ints.extend(alpha::fe_ints().into_iter().take(if quick { 50 } else { 80 }));
     let mut out = Vec::new();
     let mut seen = std::collections::HashSet::new();
     for x in ints {
@@ -257,7 +255,7 @@ pub fn run(ctx: &Ctx) {
     }
     // ---- the bit-string ladder: all bit strings of length <= L, and long patterns
     {
-        let lmax = if quick { 8 } else { 11 };
+        let lmax = if quick { 10 } else { 11 };
         let mut strings: Vec<Vec<bool>> = Vec::new();
         for len in 0..=lmax {
             for v in 0..(1u32 << len) {
